@@ -586,7 +586,56 @@ def sys_idle_par():
     return out
 
 
+def gen_wal(seed):
+    rng = random.Random(seed)
+    nb = rng.choice([1, 2, 2, 3])
+    names = ['b%d' % (i + 1) for i in range(nb)]
+    faults = []
+    buses = []
+    for n in names:
+        fl = []
+        if rng.random() < 0.35:
+            fl = ['%s:%d' % (rng.choice(['open', 'write']), rng.randint(1, 4)) for _ in range(rng.randint(1, 2))]
+        buses.append(bus(n, wal=rng.random() < 0.85, wal_faults=fl))
+    handlers, scripts = [], {}
+    for b in names:
+        sc = {'W1': [], 'W2': [], 'W3': []}
+        if rng.random() < 0.7:
+            sc['W1'] = [['d', rng.choice(names), 'W2']] + ([['y', rng.randint(1, 2)]] if rng.random() < 0.4 else []) + ([['a', 0]] if rng.random() < 0.7 else [])
+        if rng.random() < 0.4:
+            sc['W2'] = [['d', rng.choice(names), 'W3'], ['a', 0]] if rng.random() < 0.6 else [['s', rng.choice([1, 3])]]
+        if rng.random() < 0.2:
+            sc['W3'] = [['raise']]
+        scripts['S_' + b] = sc
+        handlers.append(wild(b))
+        if rng.random() < 0.3:
+            scripts['T_' + b] = {'W1': [['ret', 'i1']], 'W2': [['raise']]}
+            handlers.append(typed(b, rng.choice(['W1', 'W2']), 'T_' + b, rng.choice(['sync', 'async'])))
+    if nb > 1 and rng.random() < 0.5:
+        a, c = rng.sample(names, 2)
+        handlers.append(fwd(a, c))
+    payloads = [
+        {'n': 1, 's': 'plain'},
+        {'n': -5, 's': 'h\u00e9llo \u2603 \u4e2d\u6587 \U0001F600', 'tags': ['a', 'b\n', '"q"'], 'nested': {'k': [1, {'z': None}], 'u': '\u00fc'}},
+        {'n': 2 ** 40, 's': '', 'opt': 1.5, 'nested': {'deep': {'deeper': {'x': [[], {}, [1.25, True, None]]}}}},
+        {'n': 0, 's': 'line\nbreak\ttab\\ back', 'extra_field': {'free': ['form', 1, 2.5]}, 'another': 'x'},
+        {'n': 7, 's': 'dt', 'when': '2031-12-31T23:59:59.123456+00:00'},
+    ]
+    d = []
+    for i in range(rng.randint(1, 4)):
+        if rng.random() < 0.3:
+            d.append(['y', rng.randint(1, 3)])
+        p = dict(rng.choice(payloads))
+        if rng.random() < 0.5:
+            p['n'] = rng.randint(-10 ** 6, 10 ** 6)
+            p['s'] = ''.join(chr(rng.choice([rng.randint(32, 126), rng.randint(0xa0, 0x24f), rng.randint(0x4e00, 0x4e40)])) for _ in range(rng.randint(0, 12)))
+        d.append(['d', rng.choice(names), 'W1', None, p])
+    d += [['a', 0]] + [['idle', b, 2000] for b in names]
+    return scn(buses, handlers, scripts, [d], horizon=8000, tag='wal')
+
+
 FAMILIES = {
+    'wal': ('rand', gen_wal),
     'errors_par': ('sys', sys_errors_par),
     'retry_dispatch': ('sys', sys_retry_dispatch),
     'idle_par': ('sys', sys_idle_par),
